@@ -17,7 +17,8 @@ def rand_params(rng, n, short=True):
     r = rng.choice([2.0, 3.0, 4.0, 1.5, rng.uniform(1.05, 10.0), rng.uniform(1.5, 4.5)])
     eps = rng.choice([0.1, 0.05, 0.02, 0.01, 0.25, 0.125, rng.uniform(0.01, 0.3)])
     limit = rng.choice([15, 30, 60, 100]) if short else rng.choice([100, 200, 400])
-    m = rng.choice([10, 10, 8, 6, 12]) if n > 1 else 10
+    # densities from very coarse (a handful of cells: many trials share a cell, intervals shorter than a cell) to fine
+    m = rng.choice([10, 10, 8, 6, 12, 4, 3, 2]) if n > 1 else 10
     while n * m > 50:
         m -= 1
     return r, eps, limit, m
